@@ -1,6 +1,7 @@
 package main
 
 import (
+	"runtime"
 	"bufio"
 	"context"
 	"encoding/binary"
@@ -258,6 +259,13 @@ func runGen(kind, src, fullPorts, chunkPorts, excl, cache, gw, ord string) (obse
 		bo := strings.Split(src[4:], "/")
 		base, _ := strconv.ParseUint(bo[0], 10, 64)
 		ones, _ := strconv.Atoi(bo[1])
+		if ones <= 21 {
+			// a crowd: as many packet workers as the commands start on this machine (runtime.NumCPU(), at least 8)
+			opts.Workers = runtime.NumCPU()
+			if opts.Workers < 8 {
+				opts.Workers = 8
+			}
+		}
 		ip := make(net.IP, 4)
 		binary.BigEndian.PutUint32(ip, uint32(base))
 		r.DstSubnet = &net.IPNet{IP: ip, Mask: net.CIDRMask(ones, 32)}
@@ -649,6 +657,31 @@ func genComponent(r *hx.Run) {
 			r.Count("engine-start-error")
 		}
 		r.Case(kind+"/"+strings.Join(classes, "+"), "gen", kind, src, full, chunk, excl, cache, gw, ord, obs)
+	}
+	// crowds: thousands of addresses through ALL packet workers of each scan method at once (what one worker does to
+	// a filler, a layer struct or a request while another is using it shows up as a frame for the wrong target)
+	crowd := 1
+	if r.Tier == "thorough" {
+		crowd = 6
+	}
+	for i := 0; i < crowd; i++ {
+		for _, kind := range []string{"pkt-arp", "pkt-tcp", "pkt-udp", "pkt-icmp"} {
+			ones := 20 + rng.Intn(2)
+			base := uint32(10<<24) | uint32(rng.Intn(256))<<16 | uint32(rng.Intn(16))<<(32-uint(ones))&0xffff
+			base &^= (1 << uint(32-ones)) - 1
+			src := fmt.Sprintf("net:%d/%d", base, ones)
+			full, cache, gw := "443-443", "-", fmt.Sprint(0x020000fe0000+rng.Intn(200))
+			if kind == "pkt-arp" || kind == "pkt-icmp" {
+				full = "-"
+			}
+			if kind == "pkt-arp" {
+				cache, gw = "none", "-"
+			}
+			obs := runGen(kind, src, full, full, "none", cache, gw, "S")
+			r.Count(kind)
+			r.Count("crowd")
+			r.Case(kind+"/crowd", "gen", kind, src, full, full, "none", cache, gw, "S", obs)
+		}
 	}
 }
 
